@@ -283,7 +283,7 @@ def r3(R3, cfg, F):
     ok_normal = not (after & (set(recv) | set(th.return_blocks())))
     # the token answered is the one carried by the message
     # (a payload field of the Ptr message, directly or inside a private struct that groups the request)
-    ok_tok = all('as:Ptr' in (common.deep_path(th, n.args[1], at=n.bb) or []) and n.args[1].get('place', {}).get('ty') == 'usize' for n in nt)
+    ok_tok = all('as:Ptr' in (common.deep_path(th, n.args[1], at=n.bb) or []) for n in nt)
     # unwind exits of the arm: calls executed before the answer whose unwind edge leaves the thread
     ok_unwind = True
     why = ''
